@@ -1,15 +1,15 @@
 (* Properties/C03.v - accessors describe one consistent decomposition of the serialization.
    Stated for every record satisfying the executable structural invariant wf_b (Model/WF.v) and for
    both build configurations (dbg).  That reachable Urls satisfy wf_b (the reachability half, C02's L1/L2)
-   is section R below: proved for every parse / join result outside the file class and along the mutators
-   whose invariant preservation C06 proves (C03_parse_wf, C03_reachability_partial); the file scheme and the
-   remaining mutators are C03_reachability_remaining_statement (not proved; the correspondence run evaluates
-   wf_b on every reached record and lists the classes that leave it). *)
+   is section R below: proved for EVERY parse / join result (C03_parse_reachability; file scheme included) and
+   along the mutators whose invariant preservation C06 proves (C03_reachability_partial); the remaining mutators
+   are C03_reachability_full_statement (not proved; the correspondence run evaluates wf_b on every reached
+   record and lists the classes that leave it). *)
 From Coq Require Import String.
 From RU Require Import Base.Prelude Model.HostT Model.UrlRecord Model.Parser Model.Setters Model.WF
   Proofs.ListN Proofs.C03_WF Proofs.C06_Suffix Proofs.C06_HostNone Proofs.C06_Host Proofs.C06_Segments Proofs.C06_Path
   Proofs.C06_Main Proofs.C02_Reach Proofs.C02_AuthParts Proofs.C02_AuthMain Proofs.C04_ParseTotal
-  Proofs.C03_ReachParts Proofs.C03_Reach Proofs.C03_ReachHost Proofs.C03_ReachHist.
+  Proofs.C03_ReachParts Proofs.C03_Reach Proofs.C03_ReachFile Proofs.C03_ReachHost Proofs.C03_ReachHist.
 Open Scope string_scope.
 Open Scope N_scope.
 Open Scope list_scope.
@@ -148,10 +148,25 @@ Check C03_parse_wf : forall dbg hp hpo hd ovr base input u,
   parse_url dbg hp hpo hd ovr base input = POk u -> wf_b u = true /\ host_text_ok u.
 Print Assumptions C03_parse_wf.
 
-(* histories: reach03 dbg hp hpo hd (C03_ReachHist.v) = parse and join results outside the file class (a base
-   is a reached record that satisfies base_ok), closed under set_fragment, set_query, set_port, set_password,
-   set_username, set_scheme, set_host(None) (outside F-C06-5 / F-C02-2), set_ip_host (outside its known classes),
-   set_path and path_segments_mut sessions on records with an authority.  Every such record satisfies
+(* the same for EVERY input and base, the file scheme included ("file://host/path", "file:/path", "file:path",
+   drive letters in every spelling, references against a file base): no exclusion - the drive-letter quirks
+   (Known_file_drive, F-C01-11) change WHICH record is produced, not its layout *)
+Definition C03_parse_reachability_statement : Prop :=
+  forall dbg hp hpo hd, HostWf hp hpo hd -> forall ovr base input u,
+    match base with Some b => base_ok b = true /\ host_text_ok b | None => True end ->
+    parse_url dbg hp hpo hd ovr base input = POk u -> wf_b u = true /\ host_text_ok u.
+
+Theorem C03_parse_reachability : C03_parse_reachability_statement.
+Proof. intros dbg hp hpo hd HW ovr base input u. exact (parse_url_wf_all dbg hp hpo hd ovr HW base input u). Qed.
+Check C03_parse_reachability : forall dbg hp hpo hd, HostWf hp hpo hd -> forall ovr base input u,
+    match base with Some b => base_ok b = true /\ host_text_ok b | None => True end ->
+    parse_url dbg hp hpo hd ovr base input = POk u -> wf_b u = true /\ host_text_ok u.
+Print Assumptions C03_parse_reachability.
+
+(* histories: reach03 dbg hp hpo hd (C03_ReachHist.v) = parse and join results (a base is a reached record
+   that satisfies base_ok), closed under set_fragment, set_query, set_port, set_password, set_username,
+   set_scheme, set_host(None) (outside F-C06-5 / F-C02-2), set_ip_host (outside its known classes), set_path
+   and path_segments_mut sessions on records with an authority.  Every such record satisfies
    wfh = wf_b /\ host_text_ok, the premise of the theorems above and of C06. *)
 Theorem C03_reachability_partial : forall dbg hp hpo hd, HostWf hp hpo hd ->
   forall u, reach03 dbg hp hpo hd u -> wf_b u = true /\ host_text_ok u.
@@ -166,11 +181,11 @@ Theorem C03_reachable_index : forall dbg hp hpo hd u p, HostWf hp hpo hd -> reac
 Proof. intros dbg hp hpo hd u p HW R. apply C03_index. exact (proj1 (reach03_wfh dbg hp hpo hd HW u R)). Qed.
 Print Assumptions C03_reachable_index.
 
-(* what is still missing: the file scheme (input or base), the remaining mutators and their known classes *)
-Definition C03_reachability_remaining_statement : Prop :=
-  forall dbg hp hpo hd, HostWf hp hpo hd -> forall ovr base input u,
-    match base with Some b => base_ok b = true /\ host_text_ok b | None => True end ->
-    parse_url dbg hp hpo hd ovr base input = POk u -> Known_file_drive u = false -> wf_b u = true.
+(* what is still missing for "every reachable Url" in the sense of C02 (Reachable: parse, join and all 19
+   mutators outside the known classes): the mutators that reach03 does not have (set_host(Some), the quirks
+   setters, path setters on authority-less records) and base_ok for reached bases *)
+Definition C03_reachability_full_statement : Prop :=
+  forall dbg hp hpo hd, HostWf hp hpo hd -> forall u, Reachable dbg hp hpo hd u -> wf_b u = true.
 
 (* non-vacuity: the host hypothesis has an instance; with it, joins of every kind of relative reference are
    outside the file class, meet the premises on the base, and give the expected well-formed records *)
@@ -187,6 +202,11 @@ Example C03_parse_wf_inhabited :
   /\ ex_join "a://h/p/q?x" "" "a://h/p/q?x" = true
   /\ ex_join "a:/p/q" "..//r" "a:/.//r" = true.
 Proof. exact join_examples. Qed.
+
+Example C03_parse_file_inhabited :
+  ex_file "file://h/C|/x" "file:///C:/x" = true /\ ex_file "file:///C|" "file:///C|" = true
+  /\ ex_file "file:\\h\p?q#f" "file://h/p?q#f" = true /\ ex_file "file:x" "file:///x" = true.
+Proof. destruct file_examples as (A & B & C & D & _). repeat split; assumption. Qed.
 
 (* non-vacuity: a concrete record (http://u:p@h:81/a?q#f) satisfies wf_b *)
 Example C03_wf_inhabited :
